@@ -106,6 +106,29 @@ def run(ctx):
                             key="C04:ralph-body-offset")
         except Exception as e:  # the search is best effort; the broken extractor is reported anyway
             ctx.say("ralph offset search failed: %r" % (e,))
+    # second, independent reading of Messages.sol: parseVM interpreted statement by statement (checks/sol_interp.py) on the wire bytes the
+    # real Marshal produced; what the contract would hold must be what the guardians signed — this is what finds a CONCRETE VAA when the
+    # contract-side layout drifts (the extractor / theorem above only say that it did)
+    try:
+        import os, sol_interp
+        sol_src = open(os.path.join(core.REPO, "ethereum/contracts/Messages.sol")).read()
+        nsol = 0
+        for r in rows:
+            try:
+                env = sol_interp.run(sol_src, bytes.fromhex(r["marshal"]))
+            except ValueError as e:
+                diffs = ["the contract reverts (%s) on a VAA the node produced" % e] if r["version"] == 1 else []
+            else:
+                diffs = sol_interp.compare(env, r)
+            nsol += 1
+            if diffs:
+                ctx.problem("monitor", "Messages.sol parseVM reads other values from the serialized VAA than the guardians signed: " + "; ".join(diffs[:3]),
+                            "interpreted contract source on the bytes (*VAA).Marshal() returned (target chain %d, emitter chain %d, %d signatures)" % (r["tchain"], r["echain"], len(r["sigs"])),
+                            concrete=True, replay={"vaa": {k: r[k] for k in r if k != "mon"}, "differences": diffs}, key="C04:solidity-reads-other-values")
+                break
+        ctx.cov["vaas_parsed_by_the_interpreted_solidity_source"] = nsol
+    except sol_interp.SolUnknown as e:
+        ctx.say("solidity interpreter: %s" % e)
     # the node side of "every guardian builds the same VAA from the message's fields": the real handleMessage on generated and scripted
     # chain messages (incl. the zero time, pre-1970, post-2106, sub-second timestamps); the digest it signs must be the digest of the VAA
     # built from the fields alone (harness-side construction, x/crypto/sha3 called directly)
